@@ -400,3 +400,33 @@ impl RawRx for OneshotRx {
   fn is_closed(&self) -> bool { self.0.is_closed() }
   fn fut_recv<'a>(&'a mut self) -> BF<'a, Result<Tok, RecvError>> { Box::pin(self.0.recv()) }
 }
+
+// -------------------------------------------------------------- spmc broadcast
+impl RawTx for fibre::spmc::BoundedSyncSender<Tok> {
+  const ASYNC: bool = false;
+  type Conv = fibre::spmc::BoundedAsyncSender<Tok>;
+  tx_common!(); tx_sync_single!(); tx_sync_batch!(); tx_try_batch!(); obs_usize_cap!();
+  fn conv(self) -> Option<Self::Conv> { Some(self.to_async()) }
+}
+impl RawTx for fibre::spmc::BoundedAsyncSender<Tok> {
+  const ASYNC: bool = true;
+  // single producer: one send operation in flight at a time
+  const FUT_EXCL: bool = true;
+  type Conv = fibre::spmc::BoundedSyncSender<Tok>;
+  tx_common!(); tx_async_single!(); tx_async_batch!(); tx_try_batch!(); obs_usize_cap!();
+  fn conv(self) -> Option<Self::Conv> { Some(self.to_sync()) }
+}
+impl RawRx for fibre::spmc::BoundedSyncReceiver<Tok> {
+  const ASYNC: bool = false;
+  type Conv = fibre::spmc::BoundedAsyncReceiver<Tok>;
+  rx_common!(); rx_sync_single!(); rx_sync_batch!(); rx_try_batch!(); obs_usize_cap!(); dup_clone!();
+  fn conv(self) -> Option<Self::Conv> { Some(self.to_async()) }
+}
+impl RawRx for fibre::spmc::BoundedAsyncReceiver<Tok> {
+  const ASYNC: bool = true;
+  // each receiver handle is one consumer: one receive operation in flight at a time
+  const FUT_EXCL: bool = true;
+  type Conv = fibre::spmc::BoundedSyncReceiver<Tok>;
+  rx_common!(); rx_async_single!(); rx_async_batch!(); rx_try_batch!(); obs_usize_cap!(); dup_clone!(); rx_stream!();
+  fn conv(self) -> Option<Self::Conv> { Some(self.to_sync()) }
+}
